@@ -782,7 +782,7 @@ class Generator:
             out.emit(re.sub(r'#\[derive\([^)]*\)\]', '#[derive(PartialEq)]', h) + '\n', {'fn': fnid, 'section': 'hoisted', 'label': 'hoisted', 'props': []})
         cont = spec['container']
         if cont:
-            out.emit(cont + ' {\n', body_tag)
+            out.emit(('pub ' if cont.startswith('trait ') else '') + cont + ' {\n', body_tag)
             if spec['container_extra']:
                 out.emit('\n'.join(spec['container_extra']) + '\n', {'fn': fnid, 'section': 'container-extra', 'label': 'container-extra', 'props': []})
         if spec['attrs'] and not stub:
